@@ -67,7 +67,7 @@ CHECKS = {
         technique=TECH + 'exhaustive small-scope model checking (MC_Tables, mode limit) with the real limit_df / limit_signal judged on every table x window, plus trace validation (Trace_Tables) of limit_df, limit_signal, split/drop_samples_df and flatten_dfs on analysis tables',
         text='LimitOK states bounds (everything entirely inside [start, stop] is returned, nothing entirely outside, order and feature fingerprints preserved, one common offset on reset) rather than one answer; TLC proves them for the model and evaluates them on the real outputs for all small tables x windows on the half-sample grid (either limit None) x reset x centring, and on recorded calls incl. 1-D / 2-D flatten lists.',
         design_ref='6/C18',
-        note='window limits are on the half-sample grid with fs a power of two (or 1), so start*fs is exact.'),
+        note='window limits are on the half-sample grid; at sampling rates that are not powers of two they are given half a sample off the grid or exactly ON sample times, and in the latter case windows with fs*(s/fs) != s carry their own class (one open known finding, F15b: limit_df compares samples with the product fs*limit); flatten_dfs results must not change through later calls on the same tables.'),
     'C14': dict(
         technique=TECH + 'model checking of the Session state machine (heap of aliased option dictionaries, objects, histories) incl. a negative control, TLC-generated behaviours replayed on real Bycycle objects, and TLC trace validation (Trace_Session) binding every recorded event to the Session action; group models via Trace_Pool',
         text='Session.tla: HeapIsIntent, NoStale and OnlyEditsWrite hold for all histories to the depth bound and the pinned tree\'s write-back deviation violates them. Behaviours simulated by TLC from the same specification are replayed on real objects sharing real dictionaries; TLC compares after every action the recorded dictionary contents with the specified heap, the fitted table with the functional analysis for the settings as the user wrote them, recompute_edges(r) with the functional recomputation, attribute access and load; BycycleGroup.models are checked position by position for 2-D / 3-D arrays and every axis mode.',
